@@ -1,3 +1,62 @@
-From DI Require Import PyStr Mapping.
-Theorem C19_placeholder : True. Proof. exact I. Qed.
-Print Assumptions C19_placeholder.
+(* C19 - Control paragraph is a case-insensitive mapping; typed fields are faithful. *)
+From Coq Require Import String.
+From Coq Require Import NArith ZArith List Bool.
+From DI Require Import Result PyStr Debcon Copyright Deps Mapping MappingFacts.
+Import ListNotations.
+Open Scope N_scope.
+
+(* After any sequence of get / set / delete / membership / length / iteration /
+   to_dict operations with arbitrarily-cased keys, the observations (including
+   KeyError) are those of a plain dictionary driven with the lower-cased keys.
+   [lower] is any function (Python's str.lower in the code). *)
+Theorem C19_refines_dict : forall (lower : str -> str) (V : Type) (ops : list (op V)) (d : pydict V),
+  run_ops V (step822 lower V) d ops = run_ops V (step_dict V) d (map (lower_op lower V) ops).
+Proof. exact run_refines. Qed.
+Print Assumptions C19_refines_dict.
+
+(* mapping, item pairs and "Name: value" strings all build the dictionary of the lower-cased items *)
+Theorem C19_construction_routes : forall (lower : str -> str) (V : Type) (items : list (str * V)),
+  from_items lower V items =
+  fold_left (fun d kv => dict_put (fst kv) (snd kv) d) (map (fun kv => (lower (fst kv), snd kv)) items) [].
+Proof. exact from_items_spec. Qed.
+Print Assumptions C19_construction_routes.
+
+(* the plain dictionary is a dictionary: what was set is read back, other keys are untouched *)
+Theorem C19_dict_get_put : forall (V : Type) (k k' : str) (v : V) (d : pydict V),
+  dict_get k (dict_put k v d) = Some v /\
+  (str_eqb k' k = false -> dict_get k' (dict_put k v d) = dict_get k' d).
+Proof. intros. split; [apply dict_get_put_same|apply dict_get_put_other]. Qed.
+Print Assumptions C19_dict_get_put.
+
+(* conventional capitalisation: independent of the input case, idempotent (ASCII names) *)
+Theorem C19_normalize_case_independent : forall n n', ascii_name n -> ascii_name n' ->
+  lower_ascii n = lower_ascii n' -> normalize_control_field_name n = normalize_control_field_name n'.
+Proof. exact normalize_same_case_class. Qed.
+Print Assumptions C19_normalize_case_independent.
+
+Theorem C19_normalize_idempotent : forall n, ascii_name n ->
+  normalize_control_field_name (normalize_control_field_name n) = normalize_control_field_name n.
+Proof. exact normalize_idempotent. Qed.
+Print Assumptions C19_normalize_idempotent.
+
+Example C19_normalize_special :
+  map normalize_control_field_name [lit "md5sum"; lit "SHA1"; lit "checksums-sha256"; lit "pre-depends"; lit "INSTALLED-SIZE"] =
+  [lit "MD5sum"; lit "SHA1"; lit "Checksums-SHA256"; lit "Pre-Depends"; lit "Installed-Size"].
+Proof. vm_compute. reflexivity. Qed.
+
+(* typed conversion: exactly the relationship fields become parsed relationships equal to
+   parsing their raw value, Installed-Size an integer, every other value unchanged *)
+Theorem C19_typed_fields : forall items out d,
+  parse_control_fields_aux items out = Some (Ok d) ->
+  exists cs,
+    Forall2 (fun kv c => typed_ok (normalize_control_field_name (fst kv)) (snd kv) c) items cs /\
+    d = fold_left (fun acc p => dict_put (fst p) (snd p) acc)
+                  (combine (map (fun kv => normalize_control_field_name (fst kv)) items) cs) out.
+Proof. exact typed_fields. Qed.
+Print Assumptions C19_typed_fields.
+
+Example C19_history_nonvacuous :
+  run_ops str (step822 lower_name str) []
+    [OSet (lit "Package") (lit "x"); OGet (lit "PACKAGE"); ODel (lit "pAcKaGe"); OGet (lit "package"); OLen] =
+  [ObsNone str; ObsVal str (lit "x"); ObsNone str; ObsKeyError str; ObsLen str 0].
+Proof. vm_compute. reflexivity. Qed.
